@@ -264,13 +264,21 @@ type Fault struct {
 }
 
 // DocStream is an io.Reader producing a sequence of JSON values and faults. Natively
-// it serialises the items (one item per Read call, so the decoder blocks between
-// values exactly as on a pipe); under symgo encoding/json's Decoder is replaced by a
-// contract-level model that consumes Items directly (DESIGN.md §2.6), so the values
-// may carry symbolic leaves.
+// it serialises the items; under symgo Read is an intrinsic that hands the items over
+// as opaque markers in the buffer, and encoding/json's Decoder is replaced by a
+// contract-level model that pulls them through the reader it was given — including any
+// wrapper jqawk puts around it, whose code is interpreted for real (DESIGN.md §2.6). So
+// the values may carry symbolic leaves, and how data and errors are packed into Read
+// calls is part of the model:
+//
+//	Mode 0: one item per Read; end of input / an I/O error arrives in a call of its own
+//	Mode 1: the last item arrives together with io.EOF (n > 0 and err != nil in one call)
+//	Mode 2: two items per Read where available
+//	Mode 3: an injected I/O error arrives together with the data of the item before it
 type DocStream struct {
 	Items  []any
 	OnRead func(item int) // called when the reader is asked for item i (i == len(Items): end of input)
+	Mode   int
 	pos    int
 }
 
@@ -280,6 +288,14 @@ func (ioError) Error() string { return "injected read error" }
 
 var ErrInjected error = ioError{}
 
+func (d *DocStream) isReadErr(i int) bool {
+	if i >= len(d.Items) {
+		return false
+	}
+	f, ok := d.Items[i].(Fault)
+	return ok && f.Kind == ReadErr
+}
+
 func (d *DocStream) Read(p []byte) (int, error) {
 	if d.OnRead != nil {
 		d.OnRead(d.pos)
@@ -287,25 +303,40 @@ func (d *DocStream) Read(p []byte) (int, error) {
 	if d.pos >= len(d.Items) {
 		return 0, eof
 	}
-	it := d.Items[d.pos]
-	d.pos++
+	if d.isReadErr(d.pos) {
+		d.pos++
+		return 0, ErrInjected
+	}
 	var b []byte
-	if f, ok := it.(Fault); ok {
-		if f.Kind == ReadErr {
-			return 0, ErrInjected
+	take := 1
+	if d.Mode == 2 && d.pos+1 < len(d.Items) && !d.isReadErr(d.pos+1) {
+		take = 2
+	}
+	for k := 0; k < take; k++ {
+		it := d.Items[d.pos]
+		d.pos++
+		if f, ok := it.(Fault); ok {
+			b = append(b, []byte(f.Text+"\n")...)
+		} else {
+			jb, err := json.Marshal(it)
+			if err != nil {
+				return 0, err
+			}
+			b = append(append(b, jb...), '\n')
 		}
-		b = []byte(f.Text + "\n")
-	} else {
-		jb, err := json.Marshal(it)
-		if err != nil {
-			return 0, err
-		}
-		b = append(jb, '\n')
 	}
 	if len(b) > len(p) {
-		panic("vh.DocStream: item larger than the read buffer")
+		panic("vh.DocStream: items larger than the read buffer")
 	}
-	return copy(p, b), nil
+	n := copy(p, b)
+	if d.Mode == 1 && d.pos >= len(d.Items) {
+		return n, eof
+	}
+	if d.Mode == 3 && d.isReadErr(d.pos) {
+		d.pos++
+		return n, ErrInjected
+	}
+	return n, nil
 }
 
 var eof = io.EOF
